@@ -527,6 +527,17 @@ func (w *Walker) evalBool(v ssa.Value, ps *pstate) Tri {
 					}
 				}
 			}
+			// a nil test of a value the path has made definite (`row, ok, err := r0, r1, r2` after an
+			// inlined helper ended with `r2 = nil`; an error that was just constructed)
+			if opnd, nilWhenTrue, isNT := nilTest(x); isNT {
+				t := w.cur.tm.of(opnd)
+				if kc, isK := t.Val.(*ssa.Const); isK && t.Kind == "const" && kc.Value == nil {
+					return tri(nilWhenTrue)
+				}
+				if t.Val != nil && definitelyNonNil(t.Val, 0) {
+					return tri(!nilWhenTrue)
+				}
+			}
 			if isIntType(x.X.Type()) {
 				if a, ok := w.evalInt(x.X, ps); ok {
 					if b, ok := w.evalInt(x.Y, ps); ok {
